@@ -42,12 +42,14 @@ const (
 	EvHeal    // unblock everything
 	EvCut     // block Node<->Peer
 	EvStop    // stop a node for good (removed members)
+	EvDelay   // freeze every message currently in flight to Node until the script has ended (a long delay)
+	EvPauseApply // script-only: Arg 1 pauses, 0 resumes the node's apply thread (async storage writes)
 	numEventKinds
 )
 
 var evNames = [...]string{"none", "Ready", "ReadyApply", "Advance", "Append", "Apply", "Local", "Deliver", "Drop", "Dup",
 	"Tick", "Campaign", "Propose", "ProposeConf", "ReadIndex", "Transfer", "ForgetLeader", "Unreachable", "ReportSnap",
-	"Compact", "Crash", "ReadyCrash", "AppendCrash", "Isolate", "Heal", "Cut", "Stop"}
+	"Compact", "Crash", "ReadyCrash", "AppendCrash", "Isolate", "Heal", "Cut", "Stop", "Delay", "PauseApply"}
 
 func (k EventKind) String() string { return evNames[k] }
 
@@ -112,10 +114,11 @@ const (
 	BDup
 	BCrash
 	BSnapFail
+	BDelay
 	NumBudgets
 )
 
-var budgetNames = [...]string{"tick", "campaign", "propose", "proposeconf", "read", "transfer", "forget", "unreach", "compact", "drop", "dup", "crash", "snapfail"}
+var budgetNames = [...]string{"tick", "campaign", "propose", "proposeconf", "read", "transfer", "forget", "unreach", "compact", "drop", "dup", "crash", "snapfail", "delay"}
 
 // NodeCfg is the per-node raft configuration the scenario chooses.
 type NodeCfg struct {
